@@ -146,6 +146,60 @@ theorem tie_src_beacon_chainStore_NewValidPartial : Gen.ScriptsC03.beacon_chainS
   "}"
 ] := rfl
 
+theorem tie_src_beacon_Handler_broadcastNextPartial : Gen.ScriptsC03.beacon_Handler_broadcastNextPartial = [
+  "func (h *Handler) broadcastNextPartial(ctx context.Context, current roundInfo, upon *common.Beacon) {",
+  " if upon.Round > current.round {",
+  "  return",
+  " }",
+  " previousSig := upon.Signature",
+  " round := upon.Round + 1",
+  " beaconID := common.GetCanonicalBeaconID(h.conf.Group.ID)",
+  " if current.round == upon.Round {",
+  "  previousSig = upon.PreviousSig",
+  "  round = current.round",
+  " }",
+  " msg := h.crypto.DigestBeacon(&common.Beacon{",
+  "  Round: round,",
+  "  PreviousSig: previousSig,",
+  " })",
+  " currSig, err := h.crypto.SignPartial(msg)",
+  " if err != nil {",
+  "  return",
+  " }",
+  " metadata := proto.NewMetadata(h.version.ToProto())",
+  " metadata.BeaconID = beaconID",
+  " packet := &proto.PartialBeaconPacket{",
+  "  Round: round,",
+  "  PreviousSignature: previousSig,",
+  "  PartialSig: currSig,",
+  "  Metadata: metadata,",
+  " }",
+  " h.chain.NewValidPartial(ctx, h.addr, packet)",
+  " for _, id := range h.crypto.GetGroup().Nodes {",
+  "  select {",
+  "  case <-ctx.Done():",
+  "   return",
+  "  default:",
+  "  }",
+  "  idt := id.Identity",
+  "  if h.addr == id.Address() {",
+  "   continue",
+  "  }",
+  "  go func(i key.Identity) {",
+  "   select {",
+  "   case <-ctx.Done():",
+  "    return",
+  "   default:",
+  "   }",
+  "   err := h.client.PartialBeacon(ctx, &i, packet)",
+  "   if err != nil {",
+  "    return",
+  "   }",
+  "  }(*idt)",
+  " }",
+  "}"
+] := rfl
+
 theorem tie_src_beacon_Handler_TransitionNewGroup : Gen.ScriptsC03.beacon_Handler_TransitionNewGroup = [
   "func (h *Handler) TransitionNewGroup(ctx context.Context, newShare *key.Share, newGroup *key.Group) {",
   " if h == nil {",
